@@ -111,24 +111,63 @@ func apiSig(form, kind string) string {
 }
 
 type sut struct {
-	fwd     *api.Forwarder
+	fwd *api.Forwarder
+	// the modifiers traffic runs through and the verifiers the handlers are
+	// wired to: the martianhttp.Modifier holding the tree, or - direct wiring -
+	// the root of the parsed tree itself (nil where the root has no such side)
+	reqmod  martian.RequestModifier
+	resmod  martian.ResponseModifier
+	reqv    verify.RequestVerifier
+	resv    verify.ResponseVerifier
 	m       *martianhttp.Modifier
 	verifyH *verify.Handler
 	resetH  *verify.ResetHandler
 }
 
-func newSUT(tree *tr.Node) (*sut, kit.Verdict) {
-	s := &sut{fwd: api.NewForwarder("", apiPort), m: martianhttp.NewModifier(), verifyH: verify.NewHandler(), resetH: verify.NewResetHandler()}
-	rw := httptest.NewRecorder()
-	s.m.ServeHTTP(rw, httptest.NewRequest("POST", "/configure", strings.NewReader(string(tree.JSON()))))
-	if rw.Code != 200 {
-		return nil, kit.Failf("C13/setup/valid-tree/rejected", "valid configuration answered %d %q: %s", rw.Code, rw.Body.String(), tree.JSON())
+func newSUT(tree *tr.Node) (*sut, kit.Verdict) { return newSUTWired(tree, false) }
+
+// newSUTWired: direct = the parsed tree is used without a martianhttp.Modifier
+// around it: traffic runs through its root and the verify/reset handlers are
+// wired to its root (as a proxy embedding a group does). Only the root's own
+// locking then keeps resets, queries and traffic apart.
+func newSUTWired(tree *tr.Node, direct bool) (*sut, kit.Verdict) {
+	s := &sut{fwd: api.NewForwarder("", apiPort), verifyH: verify.NewHandler(), resetH: verify.NewResetHandler()}
+	if direct {
+		r, err := parse.FromJSON(tree.JSON())
+		if err != nil {
+			return nil, kit.Failf("C13/setup/valid-tree/rejected", "valid configuration rejected: %v: %s", err, tree.JSON())
+		}
+		s.reqmod, s.resmod = r.RequestModifier(), r.ResponseModifier()
+		s.reqv, _ = s.reqmod.(verify.RequestVerifier)
+		s.resv, _ = s.resmod.(verify.ResponseVerifier)
+	} else {
+		s.m = martianhttp.NewModifier()
+		rw := httptest.NewRecorder()
+		s.m.ServeHTTP(rw, httptest.NewRequest("POST", "/configure", strings.NewReader(string(tree.JSON()))))
+		if rw.Code != 200 {
+			return nil, kit.Failf("C13/setup/valid-tree/rejected", "valid configuration answered %d %q: %s", rw.Code, rw.Body.String(), tree.JSON())
+		}
+		s.reqmod, s.resmod, s.reqv, s.resv = s.m, s.m, s.m, s.m
 	}
-	s.verifyH.SetRequestVerifier(s.m)
-	s.verifyH.SetResponseVerifier(s.m)
-	s.resetH.SetRequestVerifier(s.m)
-	s.resetH.SetResponseVerifier(s.m)
+	if s.reqv != nil {
+		s.verifyH.SetRequestVerifier(s.reqv)
+		s.resetH.SetRequestVerifier(s.reqv)
+	}
+	if s.resv != nil {
+		s.verifyH.SetResponseVerifier(s.resv)
+		s.resetH.SetResponseVerifier(s.resv)
+	}
 	return s, nil
+}
+
+// resetDirect resets by calling the verifier interface, not the handler.
+func (s *sut) resetDirect() {
+	if s.reqv != nil {
+		s.reqv.ResetRequestVerifications()
+	}
+	if s.resv != nil {
+		s.resv.ResetResponseVerifications()
+	}
 }
 
 // exchange runs one request (and its response) through the modifier.
@@ -148,11 +187,13 @@ func (s *sut) exchange(op *Op) error {
 	case op.API:
 		ctx.APIRequest()
 	}
-	if err := s.m.ModifyRequest(req); err != nil {
-		return fmt.Errorf("ModifyRequest: %v", err)
+	if s.reqmod != nil {
+		if err := s.reqmod.ModifyRequest(req); err != nil {
+			return fmt.Errorf("ModifyRequest: %v", err)
+		}
 	}
-	if !op.NoRes {
-		if err := s.m.ModifyResponse(tr.RealResponse(op.Res, req)); err != nil {
+	if !op.NoRes && s.resmod != nil {
+		if err := s.resmod.ModifyResponse(tr.RealResponse(op.Res, req)); err != nil {
 			return fmt.Errorf("ModifyResponse: %v", err)
 		}
 	}
@@ -941,8 +982,9 @@ func TestEnum(t *testing.T) {
 // control goroutines issue queries ("V") and resets ("Z").
 type ConcCase struct {
 	Tree    *tr.Node `json:"tree"`
-	Traffic [][]Op   `json:"traffic"` // one list of exchanges per traffic goroutine
-	Control []string `json:"control"` // one program of V/Z per control goroutine
+	Traffic [][]Op   `json:"traffic"`          // one list of exchanges per traffic goroutine
+	Control []string `json:"control"`          // one program per control goroutine: V query, Z reset through the handler, R reset by direct calls
+	Direct  bool     `json:"direct,omitempty"` // the tree (root: a fifo group) is wired without a martianhttp.Modifier around it
 	Yield   int      `json:"yield"`
 }
 
@@ -961,7 +1003,7 @@ type cstamp struct {
 }
 
 func runConcurrent(c ConcCase) kit.Verdict {
-	s, v := newSUT(c.Tree)
+	s, v := newSUTWired(c.Tree, c.Direct)
 	if v != nil {
 		return v
 	}
@@ -1015,9 +1057,13 @@ func runConcurrent(c ConcCase) kit.Verdict {
 				st := &control[g][i]
 				st.kind = prog[i]
 				st.start = atomic.AddInt64(&clock, 1)
-				if prog[i] == 'V' {
+				switch prog[i] {
+				case 'V':
 					st.got, st.err = s.query()
-				} else {
+				case 'R':
+					s.resetDirect()
+					st.code = 204
+				default:
 					st.code = s.reset()
 				}
 				st.end = atomic.AddInt64(&clock, 1)
@@ -1034,7 +1080,7 @@ func runConcurrent(c ConcCase) kit.Verdict {
 	var resets, queries []cstamp
 	for _, prog := range control {
 		for _, st := range prog {
-			if st.kind == 'Z' {
+			if st.kind == 'Z' || st.kind == 'R' {
 				resets = append(resets, st)
 				if st.code != 204 {
 					v.Addf("C13/reset/handler/status", "reset handler answered %d, want 204", st.code)
@@ -1144,7 +1190,7 @@ func runConcurrent(c ConcCase) kit.Verdict {
 func concShape(c ConcCase) (s shape, hasReset, hasQuery bool, exchanges int) {
 	s = shapeOf(c.Tree)
 	for _, p := range c.Control {
-		hasReset = hasReset || strings.Contains(p, "Z")
+		hasReset = hasReset || strings.ContainsAny(p, "ZR")
 		hasQuery = hasQuery || strings.Contains(p, "V")
 	}
 	for _, ops := range c.Traffic {
@@ -1155,7 +1201,7 @@ func concShape(c ConcCase) (s shape, hasReset, hasQuery bool, exchanges int) {
 
 var propConcurrent = &kit.Prop[ConcCase]{
 	ID: "C13", Name: "concurrent",
-	Rule: "one verifier-bearing tree, 4 traffic goroutines (<= 12|25 exchanges each) and 2 control goroutines (programs of <= 10 queries/resets) on the real handlers, API exchanges marked as in the histories check (mostly through the real api.Forwarder); ops are stamped with a global sequence number before start and after return; every failure whose exchange returned before a query began, with no reset possibly in between, must be in that query's answer, and nothing may be reported more often than evaluations can explain; run under the race detector in the race shard; non-trivial = the tree holds a verifier, traffic on >= 2 goroutines and at least one concurrent query",
+	Rule: "one verifier-bearing tree, 4 traffic goroutines (<= 12|25 exchanges each) and 2 control goroutines (programs of <= 10 queries/resets) on the real handlers; in half of the cases the tree (root: a fifo group) is wired directly, without a martianhttp.Modifier around it, and resets also come as direct ResetRequestVerifications/ResetResponseVerifications calls, API exchanges marked as in the histories check (mostly through the real api.Forwarder); ops are stamped with a global sequence number before start and after return; every failure whose exchange returned before a query began, with no reset possibly in between, must be in that query's answer, and nothing may be reported more often than evaluations can explain; run under the race detector in the race shard; non-trivial = the tree holds a verifier, traffic on >= 2 goroutines and at least one concurrent query",
 	Run:  runConcurrent,
 	NonTrivial: func(c ConcCase) bool {
 		s, _, q, _ := concShape(c)
@@ -1185,6 +1231,12 @@ var propConcurrent = &kit.Prop[ConcCase]{
 		if s.verifierInElse {
 			cl = append(cl, "verifier-in-else")
 		}
+		if c.Direct {
+			cl = append(cl, "direct-wiring")
+			if z {
+				cl = append(cl, "direct-wiring-with-concurrent-reset")
+			}
+		}
 		for _, ops := range c.Traffic {
 			for i := range ops {
 				if f := apiForm(&ops[i]); f != "" {
@@ -1194,10 +1246,16 @@ var propConcurrent = &kit.Prop[ConcCase]{
 		}
 		return cl
 	},
-	Gates: map[string]float64{"concurrent-query": 0.6, "concurrent-reset": 0.4, "verifier-not-under-fifo": 0.15,
+	Gates: map[string]float64{"concurrent-query": 0.6, "concurrent-reset": 0.4, "verifier-not-under-fifo": 0.10, "direct-wiring-with-concurrent-reset": 0.3,
 		"api-mark:direct": 0.3, "api-mark:url-already-forwarder-target": 0.5, "api-mark:url-virtual-host": 0.5},
 	Gen: func(t *rapid.T) ConcCase {
-		c := ConcCase{Tree: genTree(t), Yield: uni(t, "yield", 3)}
+		c := ConcCase{Tree: genTree(t), Yield: uni(t, "yield", 3), Direct: rapid.Bool().Draw(t, "direct")}
+		if c.Direct && c.Tree.T != tr.Fifo {
+			// Without martianhttp.Modifier it is the enclosing group that keeps a
+			// reset apart from evaluations in flight: the statement's "verifiers
+			// under FIFO groups"; a root group with everything below it.
+			c.Tree = &tr.Node{ID: 700000, T: tr.Fifo, Kids: []*tr.Node{c.Tree}}
+		}
 		for g := 0; g < 4; g++ {
 			n := uni(t, "ntraffic", kit.N(12, 25)+1)
 			ops := []Op{}
@@ -1210,9 +1268,12 @@ var propConcurrent = &kit.Prop[ConcCase]{
 			n := 1 + uni(t, "ncontrol", 10)
 			var sb strings.Builder
 			for i := 0; i < n; i++ {
-				if uni(t, "ctl", 4) == 0 {
+				switch k := uni(t, "ctl", 8); {
+				case c.Direct && k < 2:
+					sb.WriteByte('R')
+				case k < 2 || (c.Direct && k < 4):
 					sb.WriteByte('Z')
-				} else {
+				default:
 					sb.WriteByte('V')
 				}
 			}
@@ -1226,6 +1287,7 @@ func TestConcurrent(t *testing.T) {
 	n := kit.N(500, 4000)
 	if kit.Race() {
 		n = kit.N(300, 2000)
+		waitForE2E()
 	}
 	propConcurrent.Check(t, n)
 }
